@@ -1,5 +1,11 @@
 package biscuit
 
+import (
+	"time"
+
+	"github.com/biscuit-auth/biscuit-go/v2/datalog"
+)
+
 // Relational authorization harnesses: C02 (attenuation monotone), C03 (block scoping),
 // C09 (sealed equivalence), C12 (presentation independence), C13 (Reset), C18 (snapshot).
 
@@ -170,19 +176,33 @@ func VerifC13Reset() {
 	z2.policies = gGenPolicies("pol2", vParam("policies"), vParam("polMode"))
 	probe := gProbe("probe")
 
-	a, err := NewVerifier(g.tok, gPatient)
+	// round 1 ends in: an authorization (any outcome), a query, or a run-limit error
+	r1 := vChoose("round1", 3)
+	opts := gPatient
+	if r1 == 2 {
+		// a tight fact limit that round 1 exceeds and round 2 does not
+		opts = WithWorldOptions(datalog.WithMaxFacts(4), datalog.WithMaxDuration(30*time.Second))
+	}
+	a, err := NewVerifier(g.tok, opts)
 	if err != nil {
 		return
 	}
-	// round 1: add content, authorize or query (any outcome), reset
 	gLoad(a, z1)
-	if vChoose("round1", 2) == 0 {
+	switch r1 {
+	case 0:
 		vLabel("round1=authorize")
 		c1 := gClass(a.Authorize())
 		vObserve("class1", c1)
-	} else {
+	case 1:
 		vLabel("round1=query")
 		a.Query(probe)
+	default:
+		vLabel("round1=run-limit error")
+		for i := 0; i < 4; i++ {
+			a.AddFact(Fact{Predicate{Name: "bulk", IDs: []Term{Integer(i)}}})
+		}
+		lerr := a.Authorize()
+		vAssert(lerr != nil, "C13.round1-limit")
 	}
 	a.Reset()
 	// round 2 on the reused authorizer
@@ -191,8 +211,16 @@ func VerifC13Reset() {
 	reused.class = gClass(a.Authorize())
 	fs, qerr := a.Query(probe)
 	reused.facts, reused.qerr = fs, qerr != nil
-	// the same round on a fresh authorizer
-	fresh := gAuthorize(g.tok, z2, probe)
+	// the same round on a fresh authorizer (created with the same options)
+	fa, err := NewVerifier(g.tok, opts)
+	if err != nil {
+		return
+	}
+	gLoad(fa, z2)
+	var fresh gRun
+	fresh.class = gClass(fa.Authorize())
+	ffs, fqerr := fa.Query(probe)
+	fresh.facts, fresh.qerr = ffs, fqerr != nil
 	vObserve("reused", reused.class)
 	vObserve("fresh", fresh.class)
 	vCover("compared")
